@@ -28,7 +28,11 @@ impl TryFrom<TirEnvelope> for AnyTir {
     fn try_from(envelope: TirEnvelope) -> Result<Self, Self::Error> {
         let version = TirVersion::try_from(envelope.version.as_str())?;
 
-        let bytes: Vec<u8> = envelope.into();
+        // the envelope comes from a client: its content may not decode
+        let bytes = match envelope.encoding {
+            BytesEncoding::Base64 => base64_to_bytes(&envelope.content)?,
+            BytesEncoding::Hex => hex_to_bytes(&envelope.content)?,
+        };
 
         let tir = tx3_tir::encoding::from_bytes(&bytes, version)?;
 
